@@ -1,14 +1,33 @@
-(* C05 - Input-free Async providers really run concurrently.  (v1: the enabling fact; the overlap schedule follows) *)
+(* C05 - Input-free Async providers really run concurrently.
+   partial: Layer A (any emitted program of the right shape has the overlapping execution) is a theorem; that the
+   generator always emits that shape is established per observed program by the verified checker `c05b`, evaluated on
+   every generated injector of the streams, and by the barrier runs - not yet by a theorem about findOptimalPool. *)
 From Coq Require Import List Arith Bool.
 Import ListNotations.
-Require Import Sem2 Safe.
+Require Import Sem2 Safe Live LiveInv Check Overlap.
 
-(* A goroutine whose first item has no inputs and no waits can enter it in the initial state, whatever else the
-   injector contains: nothing orders it after any other provider. *)
-Theorem C05_first_item_enters_at_once : forall p t it rest, nth_error (p_threads p) t = Some (it :: rest) ->
-  it_args it = [] -> it_waits it = [] -> exists s', step p (init p) (LEnter t) = Some s'.
-Proof.
-  intros p t it rest Ht Ha Hw. unfold step, cur, init. simpl.
-  rewrite nth_error_map, Ht. simpl. rewrite Hw, Ha. simpl. eauto.
-Qed.
-Print Assumptions C05_first_item_enters_at_once.
+(* For every ranked well-synchronised program and every set F of positions (thread, item), at most one per thread, such
+   that no item of that thread up to the position awaits anything: there is an execution without failure or
+   cancellation that reaches a state in which ALL items of F are simultaneously inside their provider function -
+   however many other providers, arguments, synchronous or asynchronous, the program contains. *)
+Theorem C05_overlap : forall p rank, wfl p rank -> forall F, NoDup (map fst F) -> (forall tj, In tj F -> waitfree_upto p tj) ->
+  exists ls s, forallb ffl ls = true /\ run p (init p) ls = Some s /\ forall tj, In tj F -> inside_at s tj.
+Proof. exact overlap. Qed.
+Print Assumptions C05_overlap.
+
+(* the same for any program and set that pass the two boolean checkers (this is what is evaluated on observed programs) *)
+Theorem C05_overlap_checked : forall p rk F, check_code p rk = 0 -> c05b p F = true ->
+  exists ls s, forallb ffl ls = true /\ run p (init p) ls = Some s /\ forall tj, In tj F -> inside_at s tj.
+Proof. exact overlap_checked. Qed.
+Print Assumptions C05_overlap_checked.
+
+(* non-vacuity: main thread = sync S then async A; two goroutines with async B, C; all three async ones overlap *)
+Definition ex_prog : prog :=
+  {| p_threads := [[ {| it_node := 0; it_args := []; it_waits := []; it_nrets := 1; it_closes := []; it_fallible := false |};
+                     {| it_node := 1; it_args := []; it_waits := []; it_nrets := 1; it_closes := []; it_fallible := false |};
+                     {| it_node := 4; it_args := [(0,0);(1,0);(2,0);(3,0)]; it_waits := [(2,0);(3,0)]; it_nrets := 1; it_closes := []; it_fallible := false |} ];
+                   [ {| it_node := 2; it_args := []; it_waits := []; it_nrets := 1; it_closes := [(2,0)]; it_fallible := false |} ];
+                   [ {| it_node := 3; it_args := []; it_waits := []; it_nrets := 1; it_closes := [(3,0)]; it_fallible := false |} ]];
+     p_argnodes := []; p_reterr := false |}.
+Example C05_example : check_code ex_prog [(0,1);(1,2);(2,3);(3,4);(4,5)] = 0 /\ c05b ex_prog [(0,1);(1,0);(2,0)] = true.
+Proof. split; vm_compute; reflexivity. Qed.
